@@ -148,6 +148,54 @@ def gen_lists(rng, A, count):
                     "origin": A.atoms[base]["has_origin"]}
         lists.append({"dim": dict(d), "items": [sc_item(a), sc_item(b)]})
         lists.append({"dim": dict(d), "items": [sc_item(b), at_item(a), sc_item(a)]})
+    # directed: distinct anonymous COMPOUND units (UnitProducts: a*b, a/b, 1/a) of identical dimension and magnitude (Hertz*Meters
+    # vs Meters/Seconds) — every ordering key up to the last one (OrderAsUnitProduct) ties; and compounds next to named units
+    plain = [k for k, a in A.atoms.items() if not a["has_origin"]]
+    some = rng.sample(plain, min(len(plain), 36))
+    by_sig = {}
+    def hsig(dm):
+        return (tuple(sorted((b, Fraction(e)) for b, e in dm[0].items())), tuple(sorted((b, Fraction(e)) for b, e in dm[1].items())))
+    for k in plain:
+        by_sig.setdefault(hsig(uexpr.sem(("atom", k), A)), []).append(("atom", k))
+    for a in some:
+        by_sig.setdefault(hsig(uexpr.sem(("pow", ("atom", a), Fraction(-1)), A)), []).append(("pow", ("atom", a), Fraction(-1)))
+        for b in some:
+            if a != b:
+                for t in (("mul", ("atom", a), ("atom", b)), ("div", ("atom", a), ("atom", b))):
+                    by_sig.setdefault(hsig(uexpr.sem(t, A)), []).append(t)
+    cands = []
+    for sg, ts in by_sig.items():
+        comp = [t for t in ts if t[0] != "atom"]
+        for t1 in comp[:6]:
+            for t2 in ts:
+                if t2 == t1 or (t1[0] == "mul" and t2[0] == "mul" and set(map(str, t1[1:])) == set(map(str, t2[1:]))):
+                    continue
+                ks = uexpr.atoms_of(t1) + uexpr.atoms_of(t2)
+                sigs_ = {}
+                ok = True
+                for k in ks:                 # no two DISTINCT named units of identical dimension and magnitude (documented exclusion)
+                    if sigs_.setdefault(A.sig(k), k) != k:
+                        ok = False
+                if ok and sg[0]:             # dimensioned only (two different spellings of the unitless unit collapse)
+                    cands.append((sg, t1, t2))
+    rng.shuffle(cands)
+    def tree_item(t):
+        d_, m_ = uexpr.sem(t, A)
+        if t[0] == "atom":
+            return at_item_any(t[1])
+        return {"kind": "tree", "tree": t, "mag": {b: Fraction(e) for b, e in m_.items()}, "named": False,
+                "cxx": f"UT({uexpr.cxx(t, A, 'unit')})", "origin": False}
+    def at_item_any(base):
+        return {"kind": "atom", "key": base, "mag": dict(A.atoms[base]["mag"]), "named": True, "cxx": A.atoms[base]["cxx_type"],
+                "origin": A.atoms[base]["has_origin"]}
+    for sg, t1, t2 in cands[:8]:
+        d_ = {b: e for b, e in uexpr.sem(t1, A)[0].items()}
+        lists.append({"dim": d_, "items": [tree_item(t1), tree_item(t2)]})
+        sm, sc = rand_scale(rng)
+        k0 = uexpr.atoms_of(t1)[0]
+        lists.append({"dim": d_, "items": [tree_item(t2), tree_item(t1), {"kind": "tree", "tree": ("scale", t1, (sm, sc)),
+                      "mag": uexpr.add({b: Fraction(e) for b, e in uexpr.sem(t1, A)[1].items()}, sm), "named": False,
+                      "cxx": f"decltype(UT({uexpr.cxx(t1, A, 'unit')}){{}} * {sc})", "origin": False}]})
     return lists, gen_named
 
 
@@ -158,6 +206,8 @@ def item_sexpr(it, A, dim):
         return f"( n {a['id']} {ds} {aulib.pack_str(a['mag'], 'mag')} )"
     if it["kind"] == "gen":
         return f"( n {it['gid']} {ds} {aulib.pack_str(it['mag'], 'mag')} )"
+    if it["kind"] == "tree":
+        return uexpr.sexpr(it["tree"], A)
     a = A.atoms[it["key"]]
     return f"( scale ( n {a['id']} {ds} {aulib.pack_str(a['mag'], 'mag')} ) {aulib.pack_str(it['smag'], 'mag')} )"
 
@@ -169,6 +219,8 @@ PRELUDE = '''#include <cstdio>
 #include "au/prefix.hh"
 %s
 #include "%s"
+using au::pow; using au::root;
+#define UT(...) au::AssociatedUnitT<std::decay_t<decltype(__VA_ARGS__)>>
 '''
 
 
